@@ -28,6 +28,15 @@ Proof.
   - destruct acc as [[|a]|]; intros H; inversion H; subst; reflexivity.
 Qed.
 
+Lemma nonempty_ofs2 L cb : cb_ok L cb -> 0 < ofs_of cb -> cb_written cb <> [].
+Proof.
+  intros Hok Hp X. pose proof (written_ofs L cb Hok) as E. rewrite X in E. cbn [length] in E. rewrite <- E in Hp.
+  exact (N.lt_irrefl _ Hp).
+Qed.
+
+Lemma ofs_le2 L cb : cb_ok L cb -> ofs_of cb <= L.
+Proof. destruct cb as [len w ofs|]; cbn; [|contradiction]. intros (H0 & H1 & H2). rewrite <- H0. exact H2. Qed.
+
 Lemma flush_output_fields2 c cb bytes n c' cb' :
   flush_output c cb bytes = (n, c', cb') ->
   c_la_size c' = c_la_size c /\ c_finished c' = c_finished c.
@@ -58,12 +67,14 @@ Lemma compress_room2 R c n input E out_len f :
              (c_pending c <> [] \/ (r_in r = N.of_nat (length input) /\ f <> TF_FINISH))) /\
             ((c_flush c = TF_FINISH -> f = TF_FINISH) -> r_status r = TOkay \/ r_status r = TDone) /\
             (r_status r = TOkay -> N.of_nat (length (r_out r)) < out_len -> c_pending c = [] -> f <> TF_NONE ->
-             c_total_bytes (r_comp r) = 0 /\ c_la_size (r_comp r) = 0 /\ c_finished (r_comp r) = false).
+             c_total_bytes (r_comp r) = 0 /\ c_la_size (r_comp r) = 0 /\ c_finished (r_comp r) = false) /\
+            (r_status r = TOkay -> 0 < out_len -> input <> [] \/ f <> TF_NONE \/ c_pending c <> [] ->
+             0 < r_in r \/ r_out r <> []).
 Proof.
   intros Hsmall Hlf HGI HDz Hpre. pose proof HGI as [Hprev HG].
   unfold compress, compress_inner. rewrite Hprev. cbn [negb orb].
   destruct (negb (negb (c_flush c =? TF_FINISH) || (f =? TF_FINISH))) eqn:Ebad.
-  { eexists. split; [reflexivity|]. cbn [r_status]. split; [discriminate|]. split; [|discriminate].
+  { eexists. split; [reflexivity|]. cbn [r_status]. split; [discriminate|]. split; [|split; discriminate].
     intros Hff. exfalso. apply negb_true_iff, orb_false_iff in Ebad. destruct Ebad as [B1 B2].
     apply negb_false_iff, N.eqb_eq in B1. apply N.eqb_neq in B2. exact (B2 (Hff B1)). }
   set (c0 := set_flush c f).
@@ -75,10 +86,20 @@ Proof.
                       = Ret (CRet r) /\
                       (r_status r = TOkay -> N.of_nat (length (r_out r)) < out_len ->
                        c_pending (r_comp r) = [] /\ c_pending c <> []) /\
-                      (r_status r = TOkay \/ r_status r = TDone)).
+                      (r_status r = TOkay \/ r_status r = TDone) /\
+                      (r_status r = TOkay -> 0 < out_len -> r_out r <> [])).
   { intros st c' cb' Hf Hcase. eexists. split; [reflexivity|]. cbn [r_status r_out r_comp r_in].
-    pose proof (fob_PF out_len _ _ _ _ _ Hcb0 Hf) as ([Hok' Hfull] & _ & _).
-    split.
+    pose proof (fob_PF out_len _ _ _ _ _ Hcb0 Hf) as ([Hok' Hfull] & _ & Hstrict).
+    split; [|split].
+    3:{ intros Est Hol. apply (nonempty_ofs2 out_len cb' Hok').
+        change (c_pending c0) with (c_pending c) in Hstrict. cbn [cb0 ofs_of] in Hstrict.
+        destruct (c_pending c) as [|x l] eqn:Hpc.
+        - destruct Hcase as [Hfin|Hp]; [|contradiction]. exfalso.
+          apply fob_vout in Hf. destruct Hf as (Hv & _ & _ & Est').
+          cbn [cb_written rev_append app] in Hv. change (c_pending c0) with (c_pending c) in Hv. rewrite Hpc in Hv.
+          apply app_eq_nil in Hv. destruct Hv as [_ Hv].
+          change (c_finished c0) with (c_finished c) in Est'. rewrite Hfin, Hv in Est'. cbn [andb] in Est'. congruence.
+        - apply Hstrict; [discriminate|exact Hol]. }
     2:{ apply fob_vout in Hf. destruct Hf as (_ & _ & _ & Est'). rewrite Est'. match goal with |- context [if ?b then TDone else TOkay] => destruct b end; auto. }
     intros Est Hroom. rewrite (written_ofs out_len cb' Hok') in Hroom.
     assert (Hp' : c_pending c' = []).
@@ -96,11 +117,14 @@ Proof.
                        (c_pending c <> [] \/ (r_in r = N.of_nat (length input) /\ f <> TF_FINISH))) /\
                       ((c_flush c = TF_FINISH -> f = TF_FINISH) -> r_status r = TOkay \/ r_status r = TDone) /\
                       (r_status r = TOkay -> N.of_nat (length (r_out r)) < out_len -> c_pending c = [] -> f <> TF_NONE ->
-                       c_total_bytes (r_comp r) = 0 /\ c_la_size (r_comp r) = 0 /\ c_finished (r_comp r) = false)).
-  { intros st c' cb' Hf Hcase. destruct (Hdrain st c' cb' Hf Hcase) as (r & Er & H1 & H2).
-    exists r. split; [exact Er|]. split; [|split; [intros _; exact H2|]].
+                       c_total_bytes (r_comp r) = 0 /\ c_la_size (r_comp r) = 0 /\ c_finished (r_comp r) = false) /\
+                      (r_status r = TOkay -> 0 < out_len -> input <> [] \/ f <> TF_NONE \/ c_pending c <> [] ->
+                       0 < r_in r \/ r_out r <> [])).
+  { intros st c' cb' Hf Hcase. destruct (Hdrain st c' cb' Hf Hcase) as (r & Er & H1 & H2 & H4).
+    exists r. split; [exact Er|]. split; [|split; [intros _; exact H2|split]].
     - intros Est Hroom. destruct (H1 Est Hroom) as [X Y]. split; [exact X|left; exact Y].
-    - intros Est Hroom Hpc. destruct (H1 Est Hroom) as [_ Y]. contradiction. }
+    - intros Est Hroom Hpc. destruct (H1 Est Hroom) as [_ Y]. contradiction.
+    - intros Est Hol _. right. exact (H4 Est Hol). }
   clear Hdrain.
   change (c_pending c0) with (c_pending c). change (c_finished c0) with (c_finished c).
   change (c_flags c0) with (c_flags c).
@@ -168,7 +192,7 @@ Proof.
     { destruct Hcbuf1 as (len1 & w1 & ofs1 & Ecb1). rewrite Ecb1 in Efo.
       exact (flush_output_nonneg wb Hwb _ _ _ _ _ _ _ _ Efo). }
     assert (Hpa : c_pending (after_block c2) = []) by (unfold after_block; cbn [mkc c_pending]; exact Hpe2).
-    pose proof (flush_output_PF out_len (after_block c2) _ _ _ _ _ Hok1 Hpa Efo) as ([Hok3 _] & _).
+    pose proof (flush_output_PF out_len (after_block c2) _ _ _ _ _ Hok1 Hpa Efo) as ([Hok3 _] & Hmono3 & Hstrict3 & _).
     pose proof (flush_output_flush _ _ _ _ _ _ Efo) as Hfl3.
     unfold after_block in Hfl3. cbn [mkc c_flush] in Hfl3. rewrite Hfl2 in Hfl3.
     replace (nn <? 0)%Z with false by (symmetry; apply Z.ltb_ge; exact Hn0).
@@ -187,14 +211,14 @@ Proof.
         rewrite Et3, El3, Hls2, E1; split; reflexivity. }
     clearbody c4.
     destruct (flush_output_buffer c4 cb3) as [[st c5] cb5] eqn:Ef5.
-    pose proof (fob_PF out_len _ _ _ _ _ Hok3 Ef5) as ([Hok5 Hfull5] & _ & _).
+    pose proof (fob_PF out_len _ _ _ _ _ Hok3 Ef5) as ([Hok5 Hfull5] & Hmono5 & _).
     destruct cb3 as [len3 w3 ofs3|]; [|cbn in Hok3; contradiction].
     pose proof (fob_vout _ _ _ _ _ _ _ Ef5) as (_ & _ & Ec5 & Est5).
     assert (Hroom5 : N.of_nat (length (cb_written cb5)) < out_len -> c_pending c5 = []).
     { intros Hroom. rewrite (written_ofs out_len cb5 Hok5) in Hroom.
       destruct (c_pending c5) as [|x l]; [reflexivity|]. rewrite Hfull5 in Hroom by discriminate. lia. }
     eexists. split; [reflexivity|]. cbn [r_status r_out r_comp r_in].
-    split; [|split].
+    split; [|split; [|split]].
     + intros Est Hroom. pose proof (Hroom5 Hroom) as Hp5.
       split; [cbn [set_prev mkc c_pending]; exact Hp5|]. right.
       split; [lia|].
@@ -204,6 +228,15 @@ Proof.
       rewrite Ec5. cbn [set_prev set_pending mkc c_total_bytes c_la_size c_finished].
       split; [exact Ht4|]. split; [exact Hl4|].
       rewrite Hp5, andb_true_r in Est5. destruct (c_finished c4); [congruence|reflexivity].
+    + intros _ Hol _. right. apply (nonempty_ofs2 out_len cb5 Hok5).
+      assert (Hne : gblock_bytes c2 f <> []).
+      { apply negb_true_iff, N.eqb_neq in Enn. unfold gblock_bytes, sync_marker, stored_block.
+        destruct Hlf as [X|[X|[X|X]]]; [contradiction|rewrite X|rewrite X|rewrite X]; cbn [N.eqb orb];
+          intros Y; apply app_eq_nil in Y; destruct Y as [_ Y]; apply app_eq_nil in Y; destruct Y as [Y1 Y2];
+          first [discriminate Y2 | discriminate Y1 | (destruct (0 <? c_total_bytes c2); discriminate Y1)]. }
+      pose proof (ofs_le2 out_len cb1 Hok1) as Hofs1.
+      specialize (Hstrict3 Hne). cbn [ofs_of] in Hmono5, Hstrict3, Hmono3.
+      destruct (N.ltb_spec (ofs_of cb1) out_len) as [Hlt|Hge]; [specialize (Hstrict3 Hlt); lia|lia].
   - cbn [bind].
     destruct (flush_output_buffer c2 cb1) as [[st c3] cb3] eqn:Ef3.
     pose proof (fob_PF out_len _ _ _ _ _ Hok1 Ef3) as ([Hok3 Hfull3] & Hmono3 & _).
@@ -215,7 +248,7 @@ Proof.
       2:{ rewrite Hfull1 in Hmono3 by discriminate. lia. }
       split; [reflexivity|]. destruct (Hend eq_refl) as [HE _]. lia. }
     eexists. split; [reflexivity|]. cbn [r_status r_out r_comp r_in].
-    split; [|split].
+    split; [|split; [|split]].
     + intros Est Hroom. destruct (Hroom3 Hroom) as (Hp3 & Hp1 & Hil).
       split; [cbn [set_prev mkc c_pending]; exact Hp3|]. right.
       destruct (Hend Hp1) as [HE Hz].
@@ -228,6 +261,16 @@ Proof.
       rewrite (Hz Hnn), Hp1, Hil in Efin.
       replace (f =? TF_NONE) with false in Efin by (symmetry; apply N.eqb_neq; exact Hnn).
       cbn in Efin. discriminate Efin.
+    + intros _ Hol Hcase.
+      destruct (c_pending c1) as [|x later] eqn:Hp1.
+      2:{ right. apply (nonempty_ofs2 out_len cb3 Hok3). rewrite Hfull1 in Hmono3 by discriminate. lia. }
+      destruct (Hend eq_refl) as [HE Hz].
+      destruct Hcase as [Hi|[Hnn|Hp]]; [|exfalso|contradiction].
+      * left. destruct input; [contradiction|cbn [length] in Hilen; lia].
+      * assert (Hil : N.of_nat (length input) - src = 0) by lia.
+        rewrite (Hz Hnn), Hil in Efin.
+        replace (f =? TF_NONE) with false in Efin by (symmetry; apply N.eqb_neq; exact Hnn).
+        cbn in Efin. discriminate Efin.
 Qed.
 
 Notation DGI' := (DGI data flags wb).
@@ -243,7 +286,7 @@ Lemma deflate_turn_step R n E f s s' :
 Proof.
   intros Hf [HG Hin] HDz Hsmall. unfold deflate_turn.
   destruct (legal_mz_td f Hf) as [Hlf Htd]. rewrite Htd in *.
-  destruct (compress_room2 _ _ _ (ds_in s) E (ds_room s) f Hsmall Hlf HG HDz Hin) as (r & Er & Hroom & _ & _).
+  destruct (compress_room2 _ _ _ (ds_in s) E (ds_room s) f Hsmall Hlf HG HDz Hin) as (r & Er & Hroom & _ & _ & _).
   rewrite Er. cbv zeta.
   destruct (r_status r) eqn:Est; try discriminate.
   destruct (ds_room s - N.of_nat (length (r_out r)) =? 0) eqn:Eroom; [discriminate|].
@@ -268,7 +311,7 @@ Lemma deflate_turn_ret R n E f s :
 Proof.
   intros Hf [HG Hin] HDz Hsmall. unfold deflate_turn.
   destruct (legal_mz_td f Hf) as [Hlf Htd]. rewrite Htd in *.
-  destruct (compress_room2 _ _ _ (ds_in s) E (ds_room s) f Hsmall Hlf HG HDz Hin) as (r & Er & _ & _ & _).
+  destruct (compress_room2 _ _ _ (ds_in s) E (ds_room s) f Hsmall Hlf HG HDz Hin) as (r & Er & _ & _ & _ & _).
   rewrite Er. cbv zeta.
   destruct (r_status r); try exact I.
   destruct (_ =? 0); [exact I|].
@@ -367,7 +410,7 @@ Proof.
   intros [HG Hin] HDz Hsmall HJ. unfold deflate_turn.
   change (tdflush_of_mz 4) with 4.
   assert (Hlf : legal_flush 4) by (unfold legal_flush; cbn; tauto).
-  destruct (compress_room2 _ _ _ (ds_in s) E (ds_room s) 4 Hsmall Hlf HG HDz Hin) as (r & Er & _ & Hst & _).
+  destruct (compress_room2 _ _ _ (ds_in s) E (ds_room s) 4 Hsmall Hlf HG HDz Hin) as (r & Er & _ & Hst & _ & _).
   pose proof (compress_counts _ _ _ _ _ Er) as [_ Hrout].
   rewrite Er. cbv zeta.
   specialize (Hst (fun _ => eq_refl)).
@@ -414,6 +457,87 @@ Proof.
     pose proof (deflate_turn_finish R n E s out_len Hs Hz Hsm HJ) as X. rewrite Et in X. exact X. }
   specialize (H H1 H2 40%nat s0 H0).
   destruct (iter_pow 40 (deflate_turn 4) s0) as [s'|rr]; [discriminate|].
+  intros ->. exact H.
+Qed.
+
+(* ---- a call with output space and either input or a flush request makes progress *)
+Definition DPG (s : dfstate) : Prop := 0 < ds_tin s \/ ds_rout s <> [].
+
+Definition DRpg (r : res dres) : Prop :=
+  match r with
+  | Ret (DRet code ncons out c') => code = D_MZ_OK -> 0 < ncons \/ out <> []
+  | _ => True
+  end.
+
+Lemma rev_append_nonnil (a b : list N) : a <> [] \/ b <> [] -> rev_append a b <> [].
+Proof.
+  rewrite rev_append_rev. intros [H|H] X; apply app_eq_nil in X; destruct X as [X1 X2]; [|exact (H X2)].
+  apply H. destruct a; [reflexivity|]. cbn [rev] in X1. apply app_eq_nil in X1. destruct X1 as [_ X1]. discriminate X1.
+Qed.
+
+Lemma deflate_turn_progress R n E f s :
+  legal_mz_flush f -> DLI data flags wb R n E s -> Dz (ds_c s) ->
+  N.of_nat (length (ds_in s)) + 259 < 2 ^ 40 ->
+  0 < ds_room s -> (DPG s \/ ds_in s <> [] \/ f <> 0) ->
+  match deflate_turn f s with
+  | inl s' => DPG s' /\ 0 < ds_room s'
+  | inr r => DRpg r
+  end.
+Proof.
+  intros Hf [HG Hin] HDz Hsmall Hroom0 Hpg. unfold deflate_turn.
+  destruct (legal_mz_td f Hf) as [Hlf Htd]. rewrite Htd in *.
+  destruct (compress_room2 _ _ _ (ds_in s) E (ds_room s) f Hsmall Hlf HG HDz Hin) as (r & Er & _ & _ & _ & H5).
+  rewrite Er. cbv zeta.
+  destruct (r_status r) eqn:Est; try (cbn; discriminate).
+  assert (HP : 0 < ds_tin s + r_in r \/ rev_append (r_out r) (ds_rout s) <> []).
+  { destruct Hpg as [[X|X]|X].
+    - left. lia.
+    - right. apply rev_append_nonnil. right. exact X.
+    - assert (Hc : ds_in s <> [] \/ f <> TF_NONE \/ c_pending (ds_c s) <> []).
+      { destruct X as [X|X]; [left; exact X|right; left; exact X]. }
+      destruct (H5 eq_refl Hroom0 Hc) as [Y|Y]; [left; lia|right; apply rev_append_nonnil; left; exact Y]. }
+  assert (HPo : 0 < ds_tin s + r_in r \/ rev_append (rev_append (r_out r) (ds_rout s)) [] <> []).
+  { destruct HP as [X|X]; [left; exact X|right; apply rev_append_nonnil; left; exact X]. }
+  destruct (ds_room s - N.of_nat (length (r_out r)) =? 0) eqn:Eroom; [cbn; intros _; exact HPo|].
+  apply N.eqb_neq in Eroom.
+  destruct (_ && negb (f =? 4)).
+  - destruct (_ || _); cbn; [intros _; exact HPo|discriminate].
+  - cbn [ds_tin ds_rout ds_room]. split; [exact HP|lia].
+Qed.
+
+Lemma deflate_progress R c n E input out_len f code ncons out c' :
+  legal_mz_flush f -> DGI' R c n -> Dz c ->
+  (c_finished c = false -> n <= E /\ E <= total data /\ input = slice data n E) ->
+  N.of_nat (length input) + 259 < 2 ^ 40 ->
+  input <> [] \/ f <> 0 ->
+  deflate c input out_len f = Ret (DRet code ncons out c') -> code = D_MZ_OK ->
+  0 < ncons \/ out <> [].
+Proof.
+  intros Hf HD HDz Hin Hsmall Hreq. unfold deflate.
+  destruct (out_len =? 0) eqn:Eol; [intros H; inversion H; subst; discriminate|]. apply N.eqb_neq in Eol.
+  destruct (c_prev c) eqn:Ep.
+  4:{ destruct (f =? 4); intros H; inversion H; subst; discriminate. }
+  all: destruct HD as [HG|[Hp _]]; [|congruence].
+  all: try (destruct HG as [Hp _]; congruence).
+  set (s0 := {| ds_c := c; ds_in := input; ds_room := out_len; ds_tin := 0; ds_rout := [] |}).
+  set (I := fun s => DLI data flags wb R n E s /\ Dz (ds_c s) /\ N.of_nat (length (ds_in s)) + 259 < 2 ^ 40 /\
+                     0 < ds_room s /\ (DPG s \/ ds_in s <> [] \/ f <> 0)).
+  assert (H0 : I s0).
+  { split; [|split; [exact HDz|split; [exact Hsmall|split; [unfold s0; cbn [ds_room]; lia|right; exact Hreq]]]].
+    unfold DLI, s0. cbn [ds_c ds_in ds_tin ds_rout rev]. rewrite app_nil_r, N.add_0_r. split; [exact HG|exact Hin]. }
+  pose proof (iter_pow_inv (deflate_turn f) I DRpg) as H.
+  assert (H1 : forall s s', I s -> deflate_turn f s = inl s' -> I s').
+  { intros s s' (Hs & Hz & Hsm & Hr & Hp) Et.
+    destruct (deflate_turn_step R n E f s s' Hf Hs Hz Hsm Et) as [_ Hsm'].
+    pose proof (deflate_turn_progress R n E f s Hf Hs Hz Hsm Hr Hp) as X. rewrite Et in X. destruct X as [X1 X2].
+    split; [|split; [|split; [exact Hsm'|split; [exact X2|left; exact X1]]]].
+    - pose proof (deflate_turn_DLI data flags wb Hraw Hwb R n E f Hf s Hs) as Y. rewrite Et in Y. exact Y.
+    - pose proof (deflate_turn_np data flags wb Hraw Hwb R n E f s Hf Hs Hz) as Y. rewrite Et in Y. exact Y. }
+  assert (H2 : forall s r, I s -> deflate_turn f s = inr r -> DRpg r).
+  { intros s r (Hs & Hz & Hsm & Hr & Hp) Et.
+    pose proof (deflate_turn_progress R n E f s Hf Hs Hz Hsm Hr Hp) as X. rewrite Et in X. exact X. }
+  specialize (H H1 H2 40%nat s0 H0).
+  destruct (iter_pow 40 (deflate_turn f) s0) as [s'|rr]; [discriminate|].
   intros ->. exact H.
 Qed.
 
@@ -533,4 +657,33 @@ Proof.
   destruct HD as [[_ [(A & HBI & _ & Hn & Had)|[Hfin _]]]|[Hp _]]; [|congruence|congruence].
   destruct HBI as ((_ & _ & _ & _ & _ & F6) & Hle & _).
   split; [rewrite F6; exact (Had Hz)|]. unfold total in Hle. lia.
+Qed.
+
+(* after ANY schedule of deflate() calls that has not ended the stream, a call with a non-empty output buffer and
+   either input or a flush request that reports MZ_OK has consumed at least one byte or delivered at least one *)
+Theorem level0_deflate_call_makes_progress (data : list N) (flags wb : N) sched c rest acc n m out_len f code ncons out c' :
+  hasf flags FLAG_RAW = true -> wb <= 15 ->
+  Forall (fun it => legal_mz_flush (snd it)) sched -> legal_mz_flush f ->
+  N.of_nat (length data) + 259 < 2 ^ 40 ->
+  dreach (comp_new flags wb) data sched [] 0 = Some (c, rest, acc, n) ->
+  firstn (N.to_nat m) rest <> [] \/ f <> 0 ->
+  deflate c (firstn (N.to_nat m) rest) out_len f = Ret (DRet code ncons out c') -> code = D_MZ_OK ->
+  0 < ncons \/ out <> [].
+Proof.
+  intros Hraw Hwb Hleg Hf Hsmall Hreach Hreq Hd Hcode.
+  assert (H0 : RS data flags wb (comp_new flags wb) data [] 0).
+  { split; [left; apply (GI2_init data flags wb)|]. split; [unfold Dz, comp_new; cbn; lia|].
+    split; [intros _; reflexivity|exists 0%nat; reflexivity]. }
+  destruct (dreach_RS data flags wb Hraw Hwb sched _ _ _ _ _ _ _ _ Hleg H0 Hreach) as (HD & HDz & Hrest & Hsuf).
+  assert (Hn : c_finished c = false -> n <= total data).
+  { intros Hnf. destruct HD as [[_ [(A & HBI & _ & Hn & _)|[Hfin _]]]|[_ (Hn & _)]]; [|congruence|exact Hn].
+    destruct HBI as (_ & Hle & _). lia. }
+  assert (Hpre : c_finished c = false ->
+                 n <= N.min (n + m) (total data) /\ N.min (n + m) (total data) <= total data /\
+                 firstn (N.to_nat m) rest = slice data n (N.min (n + m) (total data))).
+  { intros Hnf. specialize (Hn Hnf). split; [lia|]. split; [lia|].
+    rewrite (Hrest Hnf). unfold slice. rewrite firstn_min, skipn_length. f_equal. unfold total in *. lia. }
+  assert (Hlen : N.of_nat (length (firstn (N.to_nat m) rest)) + 259 < 2 ^ 40).
+  { destruct Hsuf as [k ->]. rewrite firstn_length, skipn_length. lia. }
+  exact (deflate_progress data flags wb Hraw Hwb acc c n _ _ out_len f code ncons out c' Hf HD HDz Hpre Hlen Hreq Hd Hcode).
 Qed.
